@@ -73,6 +73,14 @@ func (l *EventsLoader) LoadAndVerify(ctx context.Context, rawEvents []json.RawMe
 			Error: errs[i],
 		}
 	}
+	// The ordering returns each event once, so an event that the input lists more than
+	// once leaves slots between the events and the errors that nothing else fills in.
+	// They must not look like events that passed every check.
+	for i := len(events); i < len(results)-len(errs); i++ {
+		results[i] = EventLoadResult{
+			Error: fmt.Errorf("gomatrixserverlib: the input lists an event more than once"),
+		}
+	}
 	// at this point, the three slices look something like:
 	// results: [ _ , _ , _ , err1 , err2 ]
 	// errs: [ err1, err2 ]
